@@ -228,6 +228,9 @@ var allKinds = []uint8{go9p.Tversion, go9p.Rversion, go9p.Tauth, go9p.Rauth, go9
 	go9p.Twstat, go9p.Rwstat}
 
 // ---- generators (all randomness from rng) ----
+var giantBudget = 0 // messages with 65535 names / qids (~1 MB on the wire; minutes in the list-based model): thorough tier only
+var largeN = 3000
+
 func genInt(bits uint, class int) uint64 {
 	max := uint64(1)<<bits - 1
 	if bits == 64 {
@@ -327,7 +330,11 @@ func genMsg(kind uint8, class int, big bool) *gmsg {
 		m.a, m.b = genInt(32, class), genInt(32, class+1)
 		n := rng.Intn(17)
 		if big && class%3 == 0 {
-			n = 65535
+			n = largeN
+			if giantBudget > 0 {
+				n = 65535
+				giantBudget--
+			}
 		}
 		for i := 0; i < n; i++ {
 			if n > 100 {
@@ -339,7 +346,11 @@ func genMsg(kind uint8, class int, big bool) *gmsg {
 	case go9p.Rwalk:
 		n := rng.Intn(17)
 		if big && class%3 == 0 {
-			n = 65535
+			n = largeN
+			if giantBudget > 0 {
+				n = 65535
+				giantBudget--
+			}
 		}
 		for i := 0; i < n; i++ {
 			m.qids = append(m.qids, genQid(class+i))
@@ -461,10 +472,11 @@ func encLen(m *gmsg, dotu bool) int {
 
 func modeCodec(tier string, args []string) {
 	rounds := 6
-	bigEvery := 9
+	bigEvery := 40
 	if tier == "thorough" {
 		rounds = 400
 		bigEvery = 5
+		giantBudget = 2
 	}
 	n := 0
 	for r := 0; r < rounds; r++ {
